@@ -1345,6 +1345,10 @@ class Process(StateMachine, persistence.Savable, metaclass=ProcessStateMachineMe
                 next_state = self.create_state(process_states.ProcessState.EXCEPTED, *sys.exc_info()[1:])
                 self._set_interrupt_action(None)
 
+            if self.has_terminated():
+                # The process was terminated underneath the step (e.g. a scheduled callback failed it): nothing to do
+                return
+
             if self._interrupt_action:
                 self._interrupt_action.run(next_state)
             else:
